@@ -649,9 +649,16 @@ def rule_i(ctx, out):
     n = 0
     for f, expr, acc in store_predicates(ctx, {"greedy.block_generation", "smt_encoding.count_sms_greedy"}):
         n += 1
+        from ..core.idioms import MULTIPLICITY
+        twice = MULTIPLICITY.get((f.qual, id(expr)), {})
         if "MSTORE" in acc and "MSTORE8" not in acc:
             out.bad(f"store-selection-misses-MSTORE8:{f.name}", f"in {f.name} the selection `{short(expr, 70)}` takes MSTORE records but not MSTORE8: a byte store "
                     f"drops out of the schedule / the count", where(f, expr), {"accepts": sorted(acc)})
+        elif twice:
+            op = sorted(twice)[0]
+            out.bad(f"store-selected-more-than-once:{f.name}:{op}", f"in {f.name} the opcode names passed to `{short(expr, 70)}` select {op} records {twice[op]} times (the "
+                    f"selection matches by substring, so 'MSTORE' already takes MSTORE8): the store and its operands are counted twice and the minimum length "
+                    f"computed from the count exceeds real sequences", where(f, expr), {"selected_times": twice})
         else:
             out.ok({"function": f.qual, "selection": short(expr, 60), "accepts": sorted(acc)})
     if n < 4:
